@@ -8,7 +8,7 @@ from gen import charset as G
 def main():
     chk = common.Check('C20')
     import charset_common as C
-    proved = chk.prove('I18n.Props.C20', generated=('charset',))
+    proved = chk.prove('I18n.Props.C20', generated=('charset', 'charsetcns'))
     problems = ' '.join(chk.lean.problems)
     driver_ok = os.path.exists(common.driver_path()) and not any('untranslatable' in s for s in chk.lean.translation.values()) \
         and 'Driver' not in problems and 'I18n.Model' not in problems and 'I18n.Generated' not in problems
@@ -31,7 +31,7 @@ def main():
     names = G.name_stream(chk.rng, known, 4000 if big else 700)
     sizes = dict(charmap_bytes=3000 if big else 500, charmap_texts=3000 if big else 500, scripts=20000 if big else 3000,
                  real_loop=1200 if big else 150, unrep=20000 if big else 3000, check_names=1500 if big else 150,
-                 euctw=12000 if big else 1500)
+                 euctw=12000 if big else 1500, euctw_all=big)
     corpus_names, C.CORPUS_BYTES[:] = C.corpus_inputs()
     names = [n for n in corpus_names if n not in set(names)] + names
     fam = C.build_streams(chk, names, sizes)
